@@ -29,6 +29,7 @@ type Slice struct {
 	Off, Len, Cap int
 	Nil           bool
 	Str           bool
+	Opaque        bool // result of a formatting call the engine did not evaluate: any inspection is refused
 }
 type Struct struct{ F []Value }
 type Array struct{ E []Value }
